@@ -46,6 +46,11 @@ var c05Faults = []string{
 	`"abc".cut("x",1)`, `"abc".cut(0-1-(b&255),1)`, `"abc".split(1)`, `"abc".toInt()`, `"abc".nosuch()`, `{k:1}.put(a,1)`, `{k:1}.put("k",1)`, `{k:1}.get(a)`, `{k:1}.get("z")`, `{k:1}.replace(3)`, `{k:1}.replace(m->3)`, `{k:1}.map(3)`, `{k:1}.accept((k,v)->7)`, `{k:1}.combine(3,(p,q)->p)`, `{k:1}.combine({z:1},(p,q)->p)`,
 	// host functions and explicit throw
 	`throw("boom")`, `throw(a)`, `hostPanic(a)`, `hostNilErr(a)+1`, `hostErr(a)`,
+	// faults inside capture-free closures (only the element z and constants): the optimizer treats such
+	// closure literals as constants; NaN and infinities as binning input
+	`hostPanicPure(z)`, `(f->f(f,z))((f,k)->f(f,k+1))`, `1%(z-z)`, `[1][z+5]`, `z.nosuch()`, `z<"x"`,
+	`[0/0*z].binning(0,1,3,x->x,x->1).values.size()`, `[1/0,0-1/0,z].binning(0,1,3,x->x,x->1).values.size()`, `[{x:0/0,y:z}].binning2d(0,1,2,0,1,2,e->e.x,e->e.y,e->1).values.size()`,
+	`[0/0].binning(0/0,1,3,x->x,x->1).values.size()`, `[z].binning(0,0/0,3,x->x,x->1).values.size()`,
 	// recursion
 	`(func r(n) r(n+1); r(a))`, `(func r(n) 1+r(n); r(a))`, `(func r(n) [r(n)]; r(a))`,
 }
@@ -77,11 +82,15 @@ func c05Jobs(tier string, seed int64) []string {
 	for fi, f := range c05Faults {
 		for ci, c := range c05ContextOrder {
 			heavy := strings.HasPrefix(c, "par")
-			recursion := strings.Contains(f, "func r(")
+			recursion := strings.Contains(f, "func r(") || strings.Contains(f, "f(f,")
 			if recursion && (heavy || c == "multiuse" || c == "multiuse2" || c == "mergeop" || c == "listeq") && tier != "thorough" {
 				continue
 			}
-			if tier != "thorough" {
+			usesZ := strings.Contains(f, "z")
+			if usesZ && !strings.Contains(c05Contexts[c], "z->") {
+				continue // the element z exists only inside the closure contexts
+			}
+			if tier != "thorough" && !usesZ {
 				// quick: top and try for every fault, three more contexts sampled per fault
 				if !(c == "top" || c == "try") && (fi+ci+int(seed))%5 != 0 && r.Intn(6) != 0 {
 					continue
@@ -90,7 +99,28 @@ func c05Jobs(tier string, seed int64) []string {
 			jobs = append(jobs, "@numcpu=4,noleak=1,steps=60000000@"+c+"|"+f)
 		}
 	}
+	for pi, p := range c05Poison {
+		for ci, c := range c05Consumers {
+			// quick: NaN and the infinities against every consumer, the other poisons sampled
+			if tier != "thorough" && pi > 2 && (pi+ci+int(seed))%4 != 0 {
+				continue
+			}
+			jobs = append(jobs, "@numcpu=4,noleak=1,steps=60000000,expect=initParallel@coll|"+p+"|"+c)
+		}
+	}
 	return jobs
+}
+
+// poisoned elements behind a forced-parallel stage: the consuming stage or terminal runs its own
+// (library) code on the collector goroutine, where a panic would not pass any closure wrapper
+var c05Poison = []string{`0/0`, `1/0`, `0-1/0`, `"s"`, `[z]`, `{k:z}`, `true`, `x->x`, `1e300*1e300`, `0.5`}
+var c05Consumers = []string{
+	`sum()`, `mean()`, `reduce((p,q)->p+q)`, `order(x->x).size()`, `orderRev(x->x).first()`, `orderLess((p,q)->p<q).size()`, `minMax(x->x).min`, `min()`, `max()`,
+	`binning(0,1,3,x->x,x->1).values.size()`, `binning(0,5,40,x->x,x->x).values.size()`, `map(x->{x:x,y:x}).binning2d(0,1,3,0,1,3,e->e.x,e->e.y,e->1).values.size()`,
+	`groupByInt(x->x).size()`, `groupByString(x->"k"+x).size()`, `groupByEqual(x->x).size()`, `uniqueInt(x->x).size()`, `uniqueString(x->""+x).size()`,
+	`combine((p,q)->p+q).sum()`, `iir(x->x,(x,l)->l+x).last()`, `movingWindow(x->x).size()`, `compact((p,q)->p=q).size()`, `top(25).size()`, `string()`,
+	`mapReduce(0,(s,x)->s+x)`, `visit(0,(v,x)->v+x)`, `indexWhere(x->x>100)`, `present(x->x<0)`, `number((i,x)->i+x).sum()`, `fsm((s,x)->goto(x%2)).size()`,
+	`createInterpolation(x->x,x->x)(3)`, `linearReg(x->x,x->x).a`, `accept(x->x>0).size()`, `[300] ~ numbers(3)`, `cross([1],(p,q)->p+q).sum()`, `reverse().first()`, `set(3,1).size()`, `append(1).size()`,
 }
 
 func c05Generator() *value.FunctionGenerator {
@@ -105,6 +135,9 @@ func c05Generator() *value.FunctionGenerator {
 		return v, nil
 	})
 	host("hostPanic", func(v value.Value) (value.Value, error) { panic("host function panics") })
+	fg.AddStaticFunction("hostPanicPure", funcGen.Function[value.Value]{
+		Func: func(st funcGen.Stack[value.Value], cs []value.Value) (value.Value, error) { panic("pure host function panics") },
+		Args: 1, IsPure: true})
 	host("hostNilErr", func(v value.Value) (value.Value, error) { return nil, nil })
 	host("hostErr", func(v value.Value) (value.Value, error) { return nil, errPanic })
 	return fg
@@ -112,13 +145,37 @@ func c05Generator() *value.FunctionGenerator {
 
 func c05Run(job string) {
 	ctx, fault, _ := strings.Cut(job, "|")
+	if ctx == "coll" {
+		poison, consumer, _ := strings.Cut(fault, "|")
+		fg := c05Generator()
+		prog := "try numbers(30).map(z->slow(z)).map(z->if z<20 then z else " + poison + ")." + consumer + " catch 7"
+		if strings.HasPrefix(consumer, "[") {
+			prog = "try " + strings.Replace(consumer, "numbers(3)", "numbers(30).map(z->slow(z)).map(z->if z<20 then z else "+poison+")", 1) + " catch 7"
+		}
+		f, _, err := fg.Generate(prog)
+		if err != nil {
+			sym.Note("not generated: " + err.Error())
+			sym.Assert(false, "collector-program-generates")
+			return
+		}
+		r := eval(f)
+		sym.Assert(!r.panicked, "no-panic-leaves-eval")
+		sym.Assert(r.ok(), "try-catches-whatever-the-consumer-raises")
+		sym.Mark("quiesce")
+		sym.Reach("end")
+		return
+	}
 	fg := c05Generator()
 	a, b := sym.Int64("a"), sym.Int64("b")
 	args := []value.Value{value.Int(a), value.Int(b)}
 	// the fault alone
-	ff, _, ferr := fg.Generate(fault, "a", "b")
+	alone := fault
+	if strings.Contains(fault, "z") {
+		alone = "(z->" + fault + ")(1)" // faults on the element z: evaluated alone with an element bound
+	}
+	ff, _, ferr := fg.Generate(alone, "a", "b")
 	faultErrors := ferr != nil
-	recursion := strings.Contains(fault, "func r(")
+	recursion := strings.Contains(fault, "func r(") || strings.Contains(fault, "f(f,")
 	if ferr == nil && !recursion {
 		r0 := eval(ff, args...)
 		faultErrors = !r0.ok()
